@@ -1,5 +1,6 @@
 import Driver.LogCmd
 import Driver.BloomCmd
+import Driver.TableCmd
 /-
 `raindrv`: one request per line on stdin, one answer per line on stdout.
 Unknown or malformed requests answer `bad-request` (never a default value).
@@ -13,6 +14,7 @@ def dispatch (toks : List String) : String :=
     let r :=
       if cmd.startsWith "log." then logCmd toks
       else if cmd.startsWith "bloom." || cmd.startsWith "filter." then bloomCmd toks
+      else if cmd.startsWith "key." || cmd.startsWith "bytes." || cmd.startsWith "block." || cmd.startsWith "table." || cmd.startsWith "lookup." then tableCmd toks
       else none
     match r with
     | some s => s
